@@ -717,6 +717,23 @@ pub fn gen_history(r: &mut Rng, g: &GenCfg) -> Vec<Value> {
             op["pre"] = json!(*r.pick(&["list", "write"]));
         }
         ops.push(op);
+        // signatures of an entry this replica has ALREADY verified, attached to other content ("signature taken from another
+        // entry" with a donor the store has seen - a verification memo must not vouch for it): a valid donor (a, k, ts, h=1)
+        // first, then the same identifier and timestamp with another hash under the donor's two signatures
+        if g.invalid && r.chance(1, 8) {
+            let mut d = gen_entry(r, g, now);
+            d["h"] = json!(1);
+            d["len"] = json!(1);
+            ops.push(json!({"op":"remote","e":d,"cls":"ok","from":1,"cs":2,"now":now}));
+            let mut f = d.clone();
+            f["h"] = json!(2);
+            if r.chance(1, 2) || !g.msgs {
+                ops.push(json!({"op":"remote","e":f,"cls":"flip_hash","from":1 + r.below(2),"cs":r.below(3),"now":now}));
+            } else {
+                ops.push(json!({"op":"msg","parts":[{"t":"item","x":[0,0,[]],"y":[0,0,[]],"vals":[{"e":f,"cls":"flip_hash","cs":r.below(3)}],"hl":true}],
+                                "from":1 + r.below(2),"now":now}));
+            }
+        }
     }
     ops
 }
